@@ -13,19 +13,22 @@ import (
 // is presented as a synthetic *ast.RangeStmt{Key: i, X: xs, Body: body} (no
 // Value), stable per ForStmt.
 
-var (
-	canonMu    sync.Mutex
-	canonLoops = map[*ast.ForStmt]*ast.RangeStmt{}
-)
+type canonCache struct {
+	mu sync.Mutex
+	m  map[*ast.ForStmt]*ast.RangeStmt
+}
 
 // CanonLoop returns the synthetic range statement of a canonical counting loop
 // over a slice/array/string, or nil.
-func CanonLoop(info *types.Info, fs *ast.ForStmt) *ast.RangeStmt {
+func (f *Func) CanonLoop(fs *ast.ForStmt) *ast.RangeStmt {
 	if fs == nil || fs.Init == nil || fs.Cond == nil || fs.Post == nil {
 		return nil
 	}
-	canonMu.Lock()
-	defer canonMu.Unlock()
+	info := f.Info()
+	cc := f.Prog.Aux("kit.canonLoops", func() any { return &canonCache{m: map[*ast.ForStmt]*ast.RangeStmt{}} }).(*canonCache)
+	cc.mu.Lock()
+	defer cc.mu.Unlock()
+	canonLoops := cc.m
 	if r, ok := canonLoops[fs]; ok {
 		return r
 	}
@@ -112,7 +115,7 @@ func (f *Func) SliceLoops(root ast.Node) []*ast.RangeStmt {
 		case *ast.RangeStmt:
 			out = append(out, x)
 		case *ast.ForStmt:
-			if r := CanonLoop(f.Info(), x); r != nil {
+			if r := f.CanonLoop(x); r != nil {
 				out = append(out, r)
 			}
 		}
